@@ -131,7 +131,7 @@ func init() {
 	for _, p := range []string{"C01", "C06", "C20"} {
 		props[p] = common.UniverseProperty(p, common.UniImpl{Load: loadV1, LookupChecks: lookupChecksV1, LoadHistory: loadHistoryV1, LoadHistoryLookups: loadHistoryV1L})
 	}
-	props["C11"] = common.LoadingProperty(common.UniImpl{Load: loadV1, LoadHistory: loadHistoryV1, LoadHistoryLookups: loadHistoryV1L})
+	props["C11"] = common.LoadingProperty(common.UniImpl{Load: loadV1, LoadHistory: loadHistoryV1, LoadHistoryLookups: loadHistoryV1L, RequestTwice: requestTwiceV1})
 }
 
 // ---- C11: loading histories through the real v1 Builder (GOPATH mode on a scratch tree) ----
@@ -219,4 +219,23 @@ func loadHistoryV1L(prog *common.Program, initial []string, steps [][]string, lo
 		}
 	}
 	return snapshotUniverse(u), stable, b.FindPackages(), nil
+}
+
+func requestTwiceV1(prog *common.Program, pkg string) (error, error) {
+	gopathMu.Lock()
+	defer gopathMu.Unlock()
+	root, err := writeGopath(prog)
+	if root != "" {
+		defer os.RemoveAll(root)
+	}
+	if err != nil {
+		return err, err
+	}
+	os.Setenv("GO111MODULE", "off")
+	os.Setenv("GOPATH", root)
+	build.Default.GOPATH = root
+	b := parser.New()
+	e1 := b.AddDir(pkg)
+	e2 := b.AddDir(pkg)
+	return e1, e2
 }
